@@ -162,6 +162,8 @@ func runC07(c *Ctx) {
 	c07VerdictFromMatcher(c)
 	if f := c.fn("RESP", "component/dns", "Dns.ResponseSelect"); f != nil {
 		makeThenAppend(c, "RESP", f)
+		c07AnswerAddrsForEveryQtype(c, "RESP", f)
+		c07UpstreamRegisteredBeforeUse(c, "RESP")
 	}
 	c.R.Floor("PARSENUM", parseNumSites(c, "PARSENUM", []string{"component/dns"}, func(f string) bool { return f == "function_parser.go" }), 1)
 }
